@@ -197,6 +197,24 @@ fn main() {
             worker_main(w, ask, seed, from, to, Path::new(&args[8]), 3);
         }
         "exec1" => exec1_main(),
+        "exec-range" => {
+            // exec-range <world> <prop> <tier> <seed> <from> <to>: what a worker does, silently.
+            install_panic_hook();
+            let w = world(&args[2]);
+            let ask = Ask { prop: prop_static(&args[3]), thorough: args[4] == "thorough", tiny: false };
+            let seed: u64 = args[5].parse().unwrap();
+            let from: u64 = args[6].parse().unwrap();
+            let to: u64 = args[7].parse().unwrap();
+            // Exactly what a worker does for this range (including the in-process
+            // minimisation of what it finds), so that a death that depends on the
+            // process's history is reproduced.
+            let out = std::env::temp_dir().join(format!("woodpile-exec-range-{}.json", std::process::id()));
+            worker_main(w, ask, seed, from, to, &out, 3);
+            for ext in ["json", "progress", "states", "shapes"] {
+                let _ = std::fs::remove_file(out.with_extension(ext));
+            }
+            std::process::exit(0);
+        }
         "miri-batch" => {
             // miri-batch <world> <prop> <seed> <from> <to>: in-process execution of
             // tiny plans, meant to run under `cargo +nightly miri run`.  Prints
@@ -295,6 +313,43 @@ fn main() {
                 .to_string();
             let w = world(plan.world);
             let mut stats = Stats::default();
+            if let (Some(r), true) = (j.get("replay_range"), args[1] == "replay") {
+                let ask = Ask {
+                    prop: prop_static(r.get("prop").and_then(|x| x.as_str()).unwrap_or("C05")),
+                    thorough: matches!(r.get("thorough"), Some(J::Bool(true))),
+                    tiny: false,
+                };
+                let exe = match j.get("replay_with").and_then(|x| x.as_str()) {
+                    Some(e) if std::path::Path::new(e).exists() => std::path::PathBuf::from(e),
+                    _ => std::env::current_exe().expect("current_exe"),
+                };
+                let g = |k: &str| r.get(k).and_then(|x| x.as_u64()).unwrap_or(0);
+                let survives = exec_range_survives(&exe, r.get("world").and_then(|x| x.as_str()).unwrap_or(""), ask, g("seed"), g("from"), g("to"));
+                let expected_prop = j.get("expected").and_then(|e| e.get("property")).and_then(|x| x.as_str()).unwrap_or("C05").to_string();
+                if survives {
+                    println!("no violation (the process survived runs {}..{})", g("from"), g("to"));
+                    std::process::exit(0);
+                }
+                println!("replay: the process executing runs {}..{} of world {} died", g("from"), g("to"), r.get("world").and_then(|x| x.as_str()).unwrap_or(""));
+                println!("VIOLATION property={} replay={}", expected_prop, args[2]);
+                std::process::exit(1);
+            }
+            if expected.ends_with(".process_died") && args[1] == "replay" {
+                // The plan is expected to kill the process that executes it: run it in a child.
+                let outcome = execute_in_child(&plan, &mut stats);
+                let expected_prop = j.get("expected").and_then(|e| e.get("property")).and_then(|x| x.as_str()).unwrap_or("C05").to_string();
+                match outcome.violations.iter().find(|v| v.inv.ends_with(".process_died")) {
+                    Some(v) => {
+                        println!("replay world={} ops={}: {}", plan.world, plan.ops.len(), v.detail);
+                        println!("VIOLATION property={} replay={}", expected_prop, args[2]);
+                        std::process::exit(1);
+                    }
+                    None => {
+                        println!("no violation (the process survived)");
+                        std::process::exit(0);
+                    }
+                }
+            }
             let outcome = w.execute(&plan, &mut stats);
             println!("replay world={} ops={} log_hash={:016x}", plan.world, plan.ops.len(), outcome.log_hash);
             if outcome.violations.is_empty() {
